@@ -352,6 +352,208 @@ func runFlavoured(c *c12case) []*c12event {
 	return evs
 }
 
+// ---------------------------------------------------------------- deep operand paths over mixed representations
+type sB struct {
+	B any `json:"b"`
+}
+type sC struct {
+	C any `json:"c"`
+}
+type namedMap map[string]any
+type namedList []any
+
+// keyedObj is a jp.Keyed collection (ordered), indexedArr a jp.Indexed one.
+type keyedObj struct {
+	keys []string
+	vals []any
+}
+
+func (k *keyedObj) ValueForKey(key string) (any, bool) {
+	for i, x := range k.keys {
+		if x == key {
+			return k.vals[i], true
+		}
+	}
+	return nil, false
+}
+func (k *keyedObj) SetValueForKey(key string, value any) {
+	for i, x := range k.keys {
+		if x == key {
+			k.vals[i] = value
+			return
+		}
+	}
+	k.keys, k.vals = append(k.keys, key), append(k.vals, value)
+}
+func (k *keyedObj) RemoveValueForKey(key string) {
+	for i, x := range k.keys {
+		if x == key {
+			k.keys, k.vals = append(k.keys[:i], k.keys[i+1:]...), append(k.vals[:i], k.vals[i+1:]...)
+			return
+		}
+	}
+}
+func (k *keyedObj) Keys() []string { return k.keys }
+
+type indexedArr struct{ vals []any }
+
+func (a *indexedArr) ValueAtIndex(i int) any {
+	if i < 0 || len(a.vals) <= i {
+		return nil
+	}
+	return a.vals[i]
+}
+func (a *indexedArr) SetValueAtIndex(i int, v any) { a.vals[i] = v }
+func (a *indexedArr) Size() int                    { return len(a.vals) }
+
+// deepVal builds the value with its containers (below the element itself) in the representation flv.
+func deepVal(a *Abs, flv string, depth int) any {
+	if a.T != "obj" && a.T != "arr" {
+		return a.Simple()
+	}
+	if depth == 0 { // the element itself stays a plain map (that is what the @.child fast path looks at)
+		m := map[string]any{}
+		for i, k := range a.K {
+			m[bstr(k)] = deepVal(a.Items[i], flv, 1)
+		}
+		return m
+	}
+	kind := flv
+	if flv == "mixed" {
+		kind = []string{"", "keyed", "struct", "gen"}[min(depth, 3)]
+	}
+	if kind == "gen" {
+		return toGen(a.Simple())
+	}
+	if a.T == "arr" {
+		l := make([]any, len(a.Items))
+		for i, it := range a.Items {
+			l[i] = deepVal(it, flv, depth+1)
+		}
+		switch kind {
+		case "keyed":
+			return &indexedArr{vals: l}
+		case "typed":
+			return namedList(l)
+		}
+		return l // (a pointer to a slice is not something jp.Get follows; pointers are used for structs only)
+	}
+	keys := make([]string, len(a.K))
+	vals := make([]any, len(a.K))
+	for i, k := range a.K {
+		keys[i], vals[i] = bstr(k), deepVal(a.Items[i], flv, depth+1)
+	}
+	switch kind {
+	case "struct", "ptr":
+		if len(keys) == 1 && keys[0] == "b" {
+			if kind == "ptr" {
+				return &sB{B: vals[0]}
+			}
+			return sB{B: vals[0]}
+		}
+		if len(keys) == 1 && keys[0] == "c" {
+			if kind == "ptr" {
+				return &sC{C: vals[0]}
+			}
+			return sC{C: vals[0]}
+		}
+	case "keyed":
+		return &keyedObj{keys: keys, vals: vals}
+	case "typed":
+		allInt := 0 < len(vals)
+		for _, v := range vals {
+			if _, ok := v.(int64); !ok {
+				allInt = false
+			}
+		}
+		if allInt {
+			tm := map[string]int64{}
+			for i, k := range keys {
+				tm[k] = vals[i].(int64)
+			}
+			return tm
+		}
+	}
+	nm := namedMap{}
+	for i, k := range keys {
+		nm[k] = vals[i]
+	}
+	if kind == "typed" || kind == "struct" || kind == "ptr" {
+		return nm
+	}
+	return map[string]any(nm)
+}
+
+func deepPath(e *AST) bool {
+	if e == nil {
+		return false
+	}
+	if e.Op == "path" {
+		return e.Root == "@" && 2 <= len(e.Fr) && e.Fr[0].F == "child" && bstr(e.Fr[0].K) == "a"
+	}
+	return deepPath(e.L) || deepPath(e.R)
+}
+
+// runDeep: a case with an operand path of depth >= 2 under @.a, again with the containers below the element as gen data inside
+// the plain map ("gen"), structs, pointers, named / typed maps and slices, jp.Keyed / jp.Indexed collections and a mix of them.
+// What the path denotes is the same (jp.Get follows all of these), so the events are judged like the plain ones.
+func runDeep(c *c12case) []*c12event {
+	if c.Elem.T != "obj" || c.Pr || !deepPath(c.Ast) {
+		return nil
+	}
+	var evs []*c12event
+	for _, flv := range []string{"gen", "struct", "ptr", "typed", "keyed", "mixed"} {
+		elem := deepVal(c.Elem, flv, 0)
+		rootMembers, _ := c.Root.Simple().(map[string]any)
+		ast := c.Ast
+		doc := map[string]any{"l": []any{elem}, "m": map[string]any{"x": elem}}
+		for k, v := range rootMembers {
+			doc[k] = v
+		}
+		rs := []route{
+			{"Match.built", "m", try(func() (bool, error) { return ast.Build().Script().Match(elem), nil })},
+			{"Match.parsed", "m", try(func() (bool, error) {
+				sc, err := jp.NewScript("(" + ast.Text() + ")")
+				if err != nil {
+					return false, err
+				}
+				return sc.Match(elem), nil
+			})},
+			{"Get.built", "g", try(func() (bool, error) { return len(jp.R().C("l").F(ast.Build()).Get(doc)) == 1, nil })},
+			{"Get.map", "g", try(func() (bool, error) { return len(jp.R().C("m").F(ast.Build()).Get(doc)) == 1, nil })},
+			{"First.built", "g", try(func() (bool, error) {
+				_, ok := jp.R().C("l").F(ast.Build()).FirstFound(doc)
+				return ok, nil
+			})},
+			{"Has.built", "g", try(func() (bool, error) { return jp.R().C("l").F(ast.Build()).Has(doc), nil })},
+			{"Eval.built", "n", try(func() (bool, error) {
+				got, _ := ast.Build().Filter().Eval([]any{}, []any{elem}).([]any)
+				return len(got) == 1, nil
+			})},
+		}
+		ev := &c12event{Flv: "D:" + flv, Ast: c.Ast, Elem: c.Elem, Root: c.Root, Text: c.Ast.Text(), Src: c.Src}
+		idx := map[string]int{}
+		for _, r := range rs {
+			key := r.rt + "|" + strconv.Itoa(r.o.r) + "|" + r.o.m
+			if j, ok := idx[key]; ok {
+				ev.O[j].As = append(ev.O[j].As, r.name+"/"+flv)
+			} else {
+				idx[key] = len(ev.O)
+				ev.O = append(ev.O, group{As: []string{r.name + "/" + flv}, Rt: r.rt, R: r.o.r, D: -1, M: r.o.m})
+			}
+		}
+		evs = append(evs, ev)
+	}
+	return evs
+}
+
+func min(a, b int) int {
+	if a < b {
+		return a
+	}
+	return b
+}
+
 func runC12(c *c12case) *c12event {
 	elem := c.Elem.Simple()
 	rootMembers, _ := c.Root.Simple().(map[string]any)
@@ -415,7 +617,7 @@ func execC12() {
 					fmt.Fprintf(os.Stderr, "marshal: %v\n", err)
 					os.Exit(2)
 				}
-				for _, fe := range runFlavoured(&c) {
+				for _, fe := range append(runFlavoured(&c), runDeep(&c)...) {
 					fb, err := json.Marshal(fe)
 					if err != nil {
 						fmt.Fprintf(os.Stderr, "marshal: %v\n", err)
